@@ -15,7 +15,7 @@ NOT_APPLICABLE = {
 }
 
 TEXT = {
-    'C01': ('exploration', '7 C01', "Seeded search over DAG shapes x serial / coordinator-simulation / simulated fork / simulated spawn x worker counts x cache pre-states (incl. bust_cache) x completion orders x 16 hash-seed classes; every returned dict is compared with a reference evaluator that works on the specification only; in a third of the runs the same task objects are handed to a second run_tasks call (new Lab, no storage, another context); task results include None; on the in-process substrates the storage directory is sometimes a relative path while tasks change the working directory. Sampling: a clean batch is evidence, not proof.",
+    'C01': ('exploration', '7 C01', "Seeded search over DAG shapes x serial / coordinator-simulation / simulated fork / simulated spawn x worker counts x cache pre-states (incl. bust_cache) x completion orders x 16 hash-seed classes; every returned dict is compared with a reference evaluator that works on the specification only; in a third of the runs the same task objects are handed to a second run_tasks call (new Lab, no storage, another context); task results include None; some tasks start a multiprocessing child of their own; on the in-process substrates the storage directory is sometimes a relative path while tasks change the working directory. Sampling: a clean batch is evidence, not proof.",
             "S2 stub fidelity (SimProcess/SimQueue model CPython 3.12 multiprocessing on Linux); spawn flavour really pickles task and results; values are unique per node so a foreign result cannot compare equal"),
     'C02': ('exploration', '7 C02', "Every run() begin is checked against the finish instant of every dependency (global event sequence numbers, not time) and every value read inside run() against that dependency's real result of this run; failing (exceptions, sys.exit) and dying (SIGKILL, os._exit with status 0/1) dependencies are injected; a second run_tasks call on the same task objects checks that nothing read in the first call leaks into it.",
             "finish instant of a dependency = its run() end / failure / kill event recorded by the probe; interleavings finer than seam operations are not generated"),
@@ -23,17 +23,17 @@ TEXT = {
             "cache pre-state is established by a real earlier serial run plus deletion of entries; the planner is an independent model over the specification"),
     'C04': ('exploration', '7 C04', "Invariant after every event: per type, tasks inside run() <= max_parallel; executing task processes <= max_workers (true process liveness in S2, in-flight set at submit in S1); workers are parked inside run() so that limits are binding; deaths and multi-completion batches are forced; half of the process-backend runs are preceded by another run_tasks call with a different max_workers inside the same simulated OS.",
             "a worker that has queued its result and is only exiting is not counted as executing"),
-    'C05': ('exploration', '7 C05', "At every resting point (S1: each wait(); S2: >=3 quiet polls with every live worker parked inside run()) the number of executing tasks must equal the capacity model min(max_workers, sum over types of min(max_parallel, runnable)).",
+    'C05': ('exploration', '7 C05', "At every resting point (S1: each wait(); S2: >=3 quiet polls - or 1.5 virtual seconds without any change - with every live worker parked inside run(); some task processes linger for seconds after their task is over) the number of executing tasks must equal the capacity model min(max_workers, sum over types of min(max_parallel, runnable)).",
             "a resting point is a state of the simulation, not a duration; a dead worker may take two polls to be noticed, which is why three quiet polls are required"),
     'C06': ('exploration', '7 C06', "Histories first run -> second run -> (1 in 6) third run in a fresh interpreter started with another PYTHONHASHSEED, with independently drawn backends (serial / S1 / simulated fork / simulated spawn) and virtual, ticking, coarse (recorded durations of exactly zero) or real clocks for the first run: every executed cacheable node must be reported cached, the later runs must return equal values without any run() begin for cached nodes, and result_meta must equal the originally recorded start and duration; a third of the histories continue with a bust_cache re-execution and another hit (which must return the new generation); in half of the histories the same task objects go through every in-process step and their result_meta is compared, after every executing step and every hit, with what the storage holds (read by a new Lab); plus real first-run/second-run histories on the real backends with task classes defined in the __main__ script. Values are unique per node, so an entry stored under or loaded from another key cannot pass.",
             "the second and third runs use a different context generation so that a re-execution is visible in the value"),
     'C08': ('exploration', '7 C08', "Stateful model check: generated histories (<= 10 operations: run, run with bust_cache, runs with failing tasks, uncache, cached_tasks, probe-run of the listed tasks, new Lab object; one Lab object and one set of task objects live across operations) over a generated universe of <= 7 nodes (dependency chains up to depth 3) including cache=None types and a type whose result is None, on LocalStorage, FsspecStorage over fsspec's LocalFileSystem and MemoryFileSystem, and storage=None; after every operation is_cached of every node, the cached_tasks listing, executed sets and returned values are compared with a plain reference dictionary and planner; look-alikes of cached tasks (same parameters, another class of a nested task or the same-named class of another module) must not be reported cached.",
             "equality is on public observations (is_cached, cached_tasks, returned values, execution records), not on directory listings"),
-    'C09': ('exploration', '7 C09', "The C08 history machine with universes drawn from the supported parameter grammar (empty / unicode / JSON-special strings, big and negative ints, +-inf floats, None, enum members, nested tuples / lists / string-keyed dicts, nested tasks), a prefix-named pair of task types, a same-named type in a second module and two cache formats in one storage: cached_tasks (also with a type named twice) must return each cached task exactly once, equal to the original, with the same cache_key and the stored result_meta, nothing of other types, and running the returned tasks must load the stored values without executing.",
+    'C09': ('exploration', '7 C09', "The C08 history machine with universes drawn from the supported parameter grammar (empty / unicode / JSON-special strings, big and negative ints, +-inf floats, None, enum members, nested tuples / lists / string-keyed dicts, nested tasks, enums with an int / str mix-in), a type whose name contains the key separator, a nested cache class, a prefix-named pair of task types, a same-named type in a second module and two cache formats in one storage: cached_tasks (also with a type named twice, also for tasks whose parameters are == but different values: 1 / True / 1.0) must return each cached task exactly once, equal to the original value by value and type by type, with the same cache_key and the stored result_meta, nothing of other types, and running the returned tasks must load the stored values without executing.",
             "NaN parameters are excluded (a task holding NaN is not equal to a rebuilt copy of itself under any implementation)"),
-    'C10': ('exploration', '7 C10', "Any subset of nodes raises or dies (worker killed before its result is queued); continue_on_failure both ways; oracle = reference planner with transitive failure: returned set, values, cached entries, exception type and cause, nothing started after the raise.",
+    'C10': ('exploration', '7 C10', "Any subset of nodes raises or dies (worker killed before its result is queued); continue_on_failure both ways; in a quarter of the runs the task objects have been through an earlier, all-successful run_tasks call; oracle = reference planner with transitive failure: returned set, values, cached entries, exception type and cause, nothing started after the raise.",
             "death points inside the save are excluded here (C13's subject)"),
-    'C11': ('exploration', '7 C11', "Liveness as bounded progress: S1 flags wait() with nothing in flight (spin) and caps wait() calls; S2 requires run_tasks to finish within 10 polling rounds of the last worker event and aborts on deadlock / 20 000 scheduler steps / 600 virtual seconds; random kills, kills after the result was queued, max_workers=1, progress displays on and off.",
+    'C11': ('exploration', '7 C11', "Liveness as bounded progress: S1 flags wait() with nothing in flight (spin) and caps wait() calls; S2 requires run_tasks to finish within 10 polling rounds of the last worker event and aborts on deadlock / 20 000 scheduler steps / 600 virtual seconds; random kills, kills after the result was queued, kills in the middle of the transfer of a result larger than a pipe buffer (queues made by a context are modelled as pipes), task processes that fork a helper which outlives them (Process.sentinel is a real descriptor), max_workers=1, progress displays on and off.",
             "virtual-time assumption: coordinator CPU steps are instantaneous relative to the 0.5 s poll"),
     'C12': ('fault_enumeration', '7 C12', "Single-fault enumeration: a fault-free reference execution of each configuration (cache format x result shape small / multi-frame / unpicklable-at-depth x first save / overwrite; thorough: x serial / S1 / simulated fork / simulated spawn) lists every injection point of the save - each storage call, each write/flush/close, a torn variant of each write, each executed line - and there is one run per point; afterwards a new Lab - and the very Lab / storage / cache objects of the session that failed - must either not report the task, or load a complete acceptable value; overwrites are preceded by a cache hit in the same session. Exhaustive over the points of the reference executions.",
             "single faults only; injection points are those of the reference execution (a run that does not reach its point is a harness error)"),
@@ -41,11 +41,11 @@ TEXT = {
             "process-kill semantics only (OS page cache survives); interleavings inside one storage operation (e.g. a half-finished rmtree) are not modelled"),
     'C14': ('fault_enumeration', '7 C14', "Serial backend: one run per line-event index executed by the calling thread inside labtech during run_tasks (exhaustive for two fixed workloads, ~5 300 instants) plus sampled interrupt pairs; process backends (simulated fork/spawn): every main-thread line boundary of fixed workloads and schedules (single interrupt, enumerated) plus a seeded search over DAGs, schedules and one or two interrupt instants, delivered at main-thread line boundaries, inside a manager-proxy call of the main thread (request sent, reply not yet read: the reply stays unread on that thread's connection to that manager and later calls read the reply before theirs; enumerated for the fixed workloads with and without the task monitor) or while the main thread is blocked in the helper thread's join, to the whole foreground group according to each process's recorded SIGINT disposition and signal mask (a blocked SIGINT stays pending, an ignored one is discarded; children inherit the mask under both start methods; the first spawn of an interpreter starts multiprocessing's resource tracker, which leaves SIGINT unblocked in the caller). Oracle: KeyboardInterrupt and nothing else, no process/task start after the interrupt, executing workers finish and their results are cached (single) or are dead without a further worker step (double; a task process that handles SIGTERM is not ended by terminate()), every entry reported cached afterwards loads a correct value; plus real killpg(SIGINT) on real fork and spawn runs: single and double at a resting point (all workers inside run()), and single at the instant the first task process exists (workers still starting up).",
             "interrupt instants are line boundaries of labtech's own code, blocked seam operations and the send/receive gap of manager proxy calls; other instants inside the standard library are attributed to the calling labtech line"),
-    'C16': ('exploration', '7 C16', "At the process-creation seam every worker of the fork/spawn backend must be requested from the fork/spawn context; context seen inside run() equals filter_context(lab.context); storage is byte-identical between runs differing only in context; (also for results that contain task objects); plus a real-OS probe (pid, ppid, module global mutated by the parent) on the three real backends, alone and after another process backend was used in the same interpreter.",
+    'C16': ('exploration', '7 C16', "At the process-creation seam every worker of the fork/spawn backend must be requested from the fork/spawn context; context seen inside run() equals filter_context(lab.context); storage is byte-identical between runs differing only in context; (also for results that contain task objects); workloads contain failing tasks and the caller's process name after the call must be what it was before (in-process backends); plus a real-OS probe (pid, ppid, module global mutated by the parent) on the three real backends, alone and after another process backend was used in the same interpreter.",
             "the real-OS half has no schedule dependence and is a real-execution probe, declared as such"),
-    'C19': ('exploration', '7 C19', "Simulated fork and spawn backends; every node emits a drawn pattern of uniquely tokenised labtech.logger records, printed lines, stderr lines, partial writes and explicit flushes; a handler on the caller's logger must have received each required token exactly once before run_tasks returns; the scheduler decides which worker finishes in the last polling round; some emitters repeat the very same text (every copy is due), some produce bursts of up to 2 300 records between two polls (manager queues honour maxsize), some die right after emitting (what had left their process is still due), some raise right after emitting (everything is due); plus the same message kinds, a repeated line and a burst of 3 000 records on the real fork and spawn backends.",
+    'C19': ('exploration', '7 C19', "Simulated fork and spawn backends; every node emits a drawn pattern of uniquely tokenised labtech.logger records, printed lines, stderr lines, partial writes and explicit flushes; a handler on the caller's logger (which carries two handlers; neither may ever handle a record inside a task process) must have received each required token exactly once before run_tasks returns (continue_on_failure=False included: what the tasks processed up to the raising one wrote is due); the scheduler decides which worker finishes in the last polling round; some emitters repeat the very same text (every copy is due), some produce bursts of up to 2 300 records between two polls (manager queues honour maxsize), some die right after emitting (what had left their process is still due), some raise right after emitting (everything is due); plus the same message kinds, a repeated line and a burst of 3 000 records on the real fork and spawn backends.",
             "exit-flush ordering of BaseProcess._bootstrap (and the second flush at interpreter finalisation of a spawned child) is modelled from the CPython 3.12 source and was compared with the real backends by hand"),
-    'C17': ('exploration', '7 C17', "A pass-through spy around the real Serial/Fork/Spawn runners and the S1 runner checks with Runner.get_result (pure read) that results stay until the last direct dependent finished and are gone afterwards, that nothing is held at return and that requested results reach the return value, over completion orders, failure patterns and all 16 hash-seed classes.",
+    'C17': ('exploration', '7 C17', "A pass-through spy around the real Serial/Fork/Spawn runners and the S1 runner checks with Runner.get_result (pure read) that results stay until the last direct dependent finished and are gone afterwards, that nothing is held at return, that requested results reach the return value, and (serial backend) that whenever a task begins every result whose dependents have all ended is already gone, over completion orders, failure patterns and all 16 hash-seed classes.",
             "weak-reference liveness only where result objects are local (S0/S1)"),
 }
 
